@@ -85,3 +85,69 @@ __CPROVER_ensures((nr > 0 && g_ranged) ==> (w_calls == 2 && w1_lhs == v_lhs && w
 ;
 void h_LPFwriteRows(void) { double* l; double* r; int nr; havoc_ghosts(); w_LPFwriteRows(l, r, nr); CANARY(); }
 #endif
+
+#if defined(INST_LPFwriteBounds) || defined(INST_LPFwriteBounds_rat)
+/* Property: "writing the LP in LP format and reading it back gives identical bounds".  LP format: a column that has no
+ * line in the Bounds section has the DEFAULT bounds [0, +inf); the line forms and what they denote:
+ *      x = v            [v, v]            l <= x <= u      [l, u]            x <= u     [0, u]   (lower stays default)
+ *      l <= x           [l, +inf)         -Inf <= x <= u   (-inf, u]         x free     (-inf, +inf)
+ * For the ghost column g_j: at most one line names it, and that line (or its absence) denotes exactly
+ * [lower_j, upper_j] ("infinite" = beyond the threshold the code uses). */
+#ifdef INST_LPFwriteBounds_rat
+typedef long long NUMT;
+#define BINF RAT_INF
+#define NN(x) 1
+#else
+typedef double NUMT;
+#define BINF INF
+#define NN(x) NOT_NAN(x)
+#endif
+enum { B_OTHER = 0, B_IND = 1, B_NUM = 2, B_LE = 3, B_EQ = 4, B_NAME = 5, B_NEGINF_LE = 6, B_FREE = 7, B_NL = 8 };
+int l_n, l_name, l_bad, l_k[8], w_n, w_lines, w_ok, w_k[8], g_j, g_nc, g_default_ok; NUMT l_v[8], w_v[8], v_lo, v_up;
+#define LO_OK(d, l) ((d) == (l) || ((d) <= -BINF && (l) <= -BINF))
+#define UP_OK(d, u) ((d) == (u) || ((d) >= BINF && (u) >= BINF))
+#define DENOTES(dlo, dup) (LO_OK(dlo, v_lo) && UP_OK(dup, v_up))
+#define SEQ3(a, b, c) (w_n == 3 && w_k[0] == (a) && w_k[1] == (b) && w_k[2] == (c))
+#define SEQ5(a, b, c, d, e) (w_n == 5 && w_k[0] == (a) && w_k[1] == (b) && w_k[2] == (c) && w_k[3] == (d) && w_k[4] == (e))
+#define SEQ7(a, b, c, d, e, f, g) (w_n == 7 && w_k[0] == (a) && w_k[1] == (b) && w_k[2] == (c) && w_k[3] == (d) && w_k[4] == (e) && w_k[5] == (f) && w_k[6] == (g))
+/* the recorded line of the ghost column is one of the six line forms and denotes [v_lo, v_up] */
+int spec_bounds_line_ok(void)
+{
+   if(SEQ5(B_IND, B_NAME, B_EQ, B_NUM, B_NL)) return w_v[3] == v_lo && w_v[3] == v_up;
+   if(SEQ7(B_IND, B_NUM, B_LE, B_NAME, B_LE, B_NUM, B_NL)) return DENOTES(w_v[1], w_v[5]);
+   if(SEQ5(B_IND, B_NAME, B_LE, B_NUM, B_NL)) return DENOTES((NUMT)0, w_v[3]);
+   if(SEQ5(B_IND, B_NUM, B_LE, B_NAME, B_NL)) return DENOTES(w_v[1], (NUMT)BINF);
+   if(SEQ5(B_NEGINF_LE, B_NAME, B_LE, B_NUM, B_NL)) return DENOTES((NUMT)(-BINF), w_v[3]);
+   if(SEQ3(B_IND, B_NAME, B_FREE)) return DENOTES((NUMT)(-BINF), (NUMT)BINF);
+   return 0;
+}
+#ifndef VCAP
+#define VCAP 8
+#endif
+void w_LPFwriteBounds(NUMT* lower, NUMT* upper, int nc)
+__CPROVER_requires(0 <= nc && nc <= VCAP && g_nc == nc && __CPROVER_is_fresh(lower, (nc > 0 ? nc : 1) * sizeof(NUMT)) && __CPROVER_is_fresh(upper, (nc > 0 ? nc : 1) * sizeof(NUMT)))
+__CPROVER_requires(nc == 0 ? g_j == 0 : (0 <= g_j && g_j < nc))
+__CPROVER_requires(nc > 0 ==> (v_lo == lower[g_j] && v_up == upper[g_j] && NN(v_lo) && NN(v_up)))
+__CPROVER_requires(g_default_ok == (DENOTES((NUMT)0, (NUMT)BINF) ? 1 : 0))
+__CPROVER_requires(l_n == 0 && l_name == -1 && l_bad == 0 && w_lines == 0 && w_ok == 0 && g_throw_allowed == 0)
+__CPROVER_assigns(l_n, l_name, l_bad, w_n, w_lines, w_ok, __CPROVER_object_whole(l_k), __CPROVER_object_whole(l_v), __CPROVER_object_whole(w_k), __CPROVER_object_whole(w_v))
+/* at most one line for the column; a line denotes exactly its bounds; no line only if the bounds are the default */
+__CPROVER_ensures(nc > 0 ==> w_lines <= 1)
+__CPROVER_ensures((nc > 0 && w_lines == 1) ==> w_ok == 1)
+__CPROVER_ensures((nc > 0 && w_lines == 0) ==> DENOTES((NUMT)0, (NUMT)BINF))
+__CPROVER_ensures(l_n == 0 && l_bad == 0)
+;
+void h_LPFwriteBounds(void)
+{
+   NUMT* lo; NUMT* up; int nc;
+   havoc_ghosts();
+   l_n = 0; l_name = -1; l_bad = 0; w_lines = 0; w_ok = 0; w_n = 0; g_j = nondet_int(); g_nc = nondet_int(); g_default_ok = nondet_int();
+#ifdef INST_LPFwriteBounds_rat
+   v_lo = nondet_ll(); v_up = nondet_ll();
+#else
+   v_lo = nondet_double(); v_up = nondet_double();
+#endif
+   w_LPFwriteBounds(lo, up, nc);
+   CANARY();
+}
+#endif
